@@ -182,6 +182,8 @@ class SidemanticParser(parser.Parser):
         # Collect tokens until comma or closing paren, respecting parentheses depth
         depth = 0
         value_parts = []
+        first_token = self._curr
+        last_token = None
 
         while self._curr:
             if self._curr.token_type in (
@@ -195,6 +197,7 @@ class SidemanticParser(parser.Parser):
                     value_parts.append(self._curr.text)
                 else:
                     value_parts.append(self._curr.text)
+                last_token = self._curr
                 self._advance()
             elif self._curr.token_type in (
                 tokens.TokenType.R_PAREN,
@@ -206,6 +209,7 @@ class SidemanticParser(parser.Parser):
                 if depth > 0:
                     depth -= 1
                 value_parts.append(self._curr.text)
+                last_token = self._curr
                 self._advance()
             elif self._curr.token_type == tokens.TokenType.COMMA and depth == 0:
                 break
@@ -214,6 +218,7 @@ class SidemanticParser(parser.Parser):
                 if value_parts and value_parts[-1] not in ("(", ",", "=", " "):
                     value_parts.append(" ")
                 value_parts.append(f"'{self._curr.text}'")
+                last_token = self._curr
                 self._advance()
             else:
                 # Add space before token if needed
@@ -231,9 +236,16 @@ class SidemanticParser(parser.Parser):
                 if curr_text == "=":
                     value_parts.append(" ")
 
+                last_token = self._curr
                 self._advance()
 
         value = "".join(value_parts).strip()
+
+        # Prefer the property's source text over the re-assembled tokens: re-assembly changes
+        # spacing (e.g. "{model}.amount" -> "{ model} . amount") and string escapes
+        source = getattr(self, "sql", None)
+        if source and first_token is not None and last_token is not None:
+            value = source[first_token.start : last_token.end + 1].strip()
 
         if not value:
             return None
